@@ -885,7 +885,13 @@ class Exec:
                 return a
             if kind == "IntToInt":
                 if is_const(a):
-                    return C("int", int(a[2]))
+                    w_ = {"u8": 8, "u16": 16, "u32": 32, "u64": 64, "usize": 64, "i8": 8, "i16": 16, "i32": 32, "i64": 64, "isize": 64}.get(rv["ty"]["s"])
+                    if w_ is None:
+                        return ("int_cast", rv["ty"]["s"], a)
+                    v_ = int(a[2]) % (1 << w_)   # casts wrap: 256usize as u8 == 0
+                    if rv["ty"]["s"].startswith("i") and v_ >= (1 << (w_ - 1)):
+                        v_ -= 1 << w_
+                    return C("int", v_)
                 return ("int_cast", rv["ty"]["s"], a)
             return ("cast", kind, rv["ty"]["s"], a)
         if k in ("ref", "rawptr"):
